@@ -104,6 +104,19 @@ impl JwsVerifier for AcceptAll {
 }
 
 pub fn exec(case: &[i64]) -> Outcome {
+  if case[0] == 9 {
+    // known class K_custom_registered: `crit` / `b64` smuggled in through the custom map (set_custom) are invisible to the policy,
+    // which reads the dedicated fields only; serde then flattens them next to the typed members.  variant: 0 crit:[exp]  1 b64:false  2 crit:[b64] + b64:false  3 crit:[]
+    let mut h = JwsHeader::new(); h.set_alg(JwsAlgorithm::EdDSA);
+    let mut m = std::collections::BTreeMap::new();
+    match case[1] { 0 => { m.insert("crit".to_string(), json!(["exp"])); } 1 => { m.insert("b64".to_string(), json!(false)); } 2 => { m.insert("crit".to_string(), json!(["b64"])); m.insert("b64".to_string(), json!(false)); } _ => { m.insert("crit".to_string(), json!([])); } }
+    h.set_custom(m);
+    let accepted = match case[2] { 0 => CompactJwsEncoder::new(b"aGk", &h).is_ok(), 1 => FlattenedJwsEncoder::new(b"aGk", Recipient::new().protected(&h), false).is_ok(), _ => GeneralJwsEncoder::new(b"aGk", Recipient::new().protected(&h), false).is_ok() };
+    let expect = case[1] == 2;      // only that header set violates none of the rules once it is written out
+    let mut o = Outcome::new(vec![accepted as i64]).class("custom-map-crit-b64").known("K_custom_registered");
+    if accepted != expect { o = o.fail("crit / b64 carried in the custom map bypass the header policy of the encoders"); }
+    return o;
+  }
   let entry = case[0];
   let fb = case[1] != 0;
   let mut v = &case[2..];
@@ -230,6 +243,7 @@ pub fn gen(rng: &mut Rng, thorough: bool, sink: &mut Sink) {
     let u2 = H { alg: false, b64: None, crit: None, common: vec![if id == 13 { 3 } else { id + 1 }], custom: None };
     sink.case(case(e, 1, Some(&p), Some(&u2)), "distinct-registered");
   } }
+  for v in 0..4 { for e in 0..3 { sink.case(vec![9, v, e], "custom-map-crit-b64"); } }
   // random headers with longer crit lists and several fields
   for _ in 0..(if thorough { 60000 } else { 4000 }) {
     let mut mk = |rng: &mut Rng| -> Option<H> {
